@@ -9,6 +9,10 @@ HANDOVER_ID = ("C01 permitted adoption from a declared previous revision with de
                "(handover differs from the same handover with in-process phases)")
 
 
+CONTROLLER_ID = ("C01 (Cluster)ObjectSet controller: member written without permitted adoption, uncontrolled object touched, "
+                 "or CollisionDetected reported although every listed object may be adopted")
+
+
 def handovers(seed, tier):
     """Handovers whose previous revisions delegated phases: two revisions (both directions), three revisions with a
     revision without remote phases listed first, and previous revisions whose phase objects were re-created."""
@@ -26,6 +30,11 @@ def handovers(seed, tier):
 
 def check(run, tier, seed, replay=None):
     rsc = json.load(open(replay))["replay"]["scenario"] if replay else None
+    if rsc is not None and "target" in rsc and "stages" not in rsc:
+        import setcheck, vlib as _v
+        _v.std_proof_stage(run, "C01")
+        setcheck.controller_stage(run, "C01", tier, seed, "judge01s", CONTROLLER_ID, replay_sc=rsc)
+        return
     dlg_replay = rsc is not None and "stages" in rsc
     scs = [] if dlg_replay else pc.table(tier) + pc.random_phases(seed, 300 if tier == "quick" else 6000) + pc.random_teardowns(seed, 100 if tier == "quick" else 1500)
     pc.phase_check(run, "C01", tier, seed, None if dlg_replay else replay, scs, "C01Corr.judge",
@@ -42,3 +51,6 @@ def check(run, tier, seed, replay=None):
     n, passes, _, _ = dlg.delegation_stage(run, "C01", hs, id_mon=HANDOVER_ID, id_twin=HANDOVER_ID, id_own=HANDOVER_ID)
     run.cov["evaluations"] += n
     run.cov["controller_passes"] = passes
+    if not replay:
+        import setcheck
+        setcheck.controller_stage(run, "C01", tier, seed, "judge01s", CONTROLLER_ID)
